@@ -1336,6 +1336,11 @@ class WorkflowConductor(object):
                 if k in self._collapse_task_rerun_requests(tasks)
             }
 
+        # Reject the request if there is no task to rerun and no task staged to continue with.
+        # Otherwise, the workflow is left in resuming status with nothing to run.
+        if not rerunnable_candidates and not self.workflow_state.has_staged_tasks:
+            raise exc.InvalidTaskRerunRequest(list(tasks.values()))
+
         # Keep record of which task sequence(s) is being rerun in the workflow state.
         rerun_entry = [i for i, t in rerunnable_candidates.values()]
         self.workflow_state.reruns.append(rerun_entry)
